@@ -400,11 +400,18 @@ func (t *procTr) ret(r *ast.ReturnStmt) (string, error) {
 		if n == 1 {
 			return "return " + t.sp.result, nil
 		}
-		if n == 2 {
-			s, err := t.expr(r.Results[0])
-			return "return " + s, err
+		var parts []string
+		for _, x := range r.Results[:n-1] {
+			s, err := t.expr(x)
+			if err != nil {
+				return "", err
+			}
+			parts = append(parts, s)
 		}
-		return "", fmt.Errorf("untranslatable return %q", norm(text(r)))
+		if len(parts) == 1 {
+			return "return " + parts[0], nil
+		}
+		return "return (" + strings.Join(parts, ", ") + ")", nil
 	}
 	if e, ok := t.sp.errs[last]; ok {
 		return "throw " + e, nil
@@ -483,6 +490,28 @@ func genProcs(repo, out string) {
 			atoms: with(mk, map[string]string{"pe.baselineAdminNetpol == nil": "(!hasBANP)"}),
 			calls: map[string]string{"pe.baselineAdminNetpol.Selects(dst, true)": "selectsDstRes", "pe.baselineAdminNetpol.Selects(src, false)": "selectsSrcRes",
 				"pe.baselineAdminNetpol.GetIngressPolicyConns(src, dst)": "ingressConnsRes", "pe.baselineAdminNetpol.GetEgressPolicyConns(dst)": "egressConnsRes"}},
+		{file: "pkg/netpol/eval/check_eval.go", fn: "isAllowedByANPCapturedRes", lean: "isAllowedByANPCapturedRes",
+			sig:   "(anpRes : RuleRes) : Except Err (Bool × Bool)",
+			atoms: map[string]string{"k8s.Pass": "RuleRes.pass", "k8s.Allow": "RuleRes.allow", "k8s.Deny": "RuleRes.deny"}, errs: badAction},
+		{file: "pkg/netpol/eval/check_eval.go", fn: "PolicyEngine.allowedXgressConnection", lean: "allowedXgressConnection",
+			sig: "(byANPs byNetpols : Except Err (Bool × Bool)) (byDefault : Except Err Bool) : Except Err Bool",
+			calls: map[string]string{
+				"pe.allowedXgressConnectionByAdminNetpols(src, dst, isIngress, protocol, port)":     "byANPs",
+				"pe.allowedXgressConnectionByNetpols(src, dst, isIngress, protocol, port)":          "byNetpols",
+				"pe.allowedXgressByBaselineAdminNetpolOrByDefault(src, dst, isIngress, protocol, port)": "byDefault"}},
+		{file: "pkg/netpol/eval/check_eval.go", fn: "PolicyEngine.allowedXgressByBaselineAdminNetpolOrByDefault", lean: "allowedXgressByBaselineAdminNetpolOrByDefault",
+			sig:   "(hasBANP isIngress : Bool) (selectsDstRes selectsSrcRes : Except Err Bool) (ingressCheck egressCheck : Except Err Bool) : Except Err Bool",
+			atoms: map[string]string{"pe.baselineAdminNetpol == nil": "(!hasBANP)"},
+			calls: map[string]string{"pe.baselineAdminNetpol.Selects(dst, true)": "selectsDstRes", "pe.baselineAdminNetpol.Selects(src, false)": "selectsSrcRes",
+				"pe.baselineAdminNetpol.CheckIngressConnAllowed(src, dst, protocol, port)": "ingressCheck",
+				"pe.baselineAdminNetpol.CheckEgressConnAllowed(dst, protocol, port)":       "egressCheck"}},
+		{file: "pkg/netpol/eval/resources.go", fn: "PolicyEngine.insertBaselineAdminNetworkPolicy", lean: "insertBaselineAdminNetworkPolicy",
+			sig:  "(e : Engine) (b : BANP) : Except Err Engine", muts: []string{"e"}, result: "e",
+			atoms: map[string]string{"pe.exposureAnalysisFlag": "e.exposure", "pe.baselineAdminNetpol != nil": "e.banp.isSome", "banp.Name": "b.name"},
+			errs: map[string]string{"errors.New(netpolerrors.ExposureAnalysisDisabledWithANPs)": ".exposureWithANP",
+				"errors.New(netpolerrors.BANPAlreadyExists)": ".banpExists", "errors.New(netpolerrors.BANPNameAssertion)": ".banpName"},
+			stmts: map[string]string{"pe.baselineAdminNetpol = (*k8s.BaselineAdminNetworkPolicy)(banp)": "e := { e with banp := some b }",
+				"pe.cache.clear()": "pure ()"}},
 	}
 	var L strings.Builder
 	L.WriteString("import Netpol.Model.Engine\n/-! REGENERATED from the Go sources of /repo by /verif/tools/goextract (procs.go) on every run. Do not edit.\n" +
